@@ -11,5 +11,5 @@ RULE = ("cases = (state reached by a rule-legal plan, action the independent rul
         "distinct by (state digest, action)")
 ASSUMPTIONS = ["illegality is judged by the independent rule model (vf/models), not by the environment's mask"]
 _P = mp.HistoryProp(PROPERTY, "check_illegal", mp.C05Mon, n_quick=12, n_thorough=120, max_len=40,
-                    styles=("legal", "survive", "solve", "legal"), use_model_legality=True)
+                    styles=("legal", "survive", "solve", "legal", "solveish"), use_model_legality=True)
 _P.export(globals())
